@@ -62,6 +62,8 @@ def doInit (s : S) (creator : String) (a : InitArgs) : S × String :=
 
 def step (s : S) : List String → S × String
   | ["reset", ch] => ({ channel := ch }, "ok")
+  -- executed by another process over the same ledger: the same initialisation
+  | "initother" :: creator :: "json" :: items => doInit s creator (.json (cfgOf items))
   | "init" :: creator :: "json" :: items => doInit s creator (.json (cfgOf items))
   | "init" :: creator :: "pos" :: args =>
     let as := args.map (fun a => if a = "-" then "" else unesc (a.drop 1).toString)
@@ -76,6 +78,7 @@ def machine : Machine := ⟨S, {}, step⟩
 
 def clause : List String → String
   | "init" :: _ => "stored_iff_valid"
+  | "initother" :: _ => "stored_iff_valid"
   | "probe" :: _ => "invoke_uses_last_stored"
   | _ => "setup"
 
